@@ -633,8 +633,10 @@ theorem maybeSendAppend_inflight_bound (to : Id) (b : Bool) (r r' : Raft) (res :
     refine ⟨{ pr' with sentCommit := r.log.committed }, ?_, h12, h1, h6, h4, h8, h9, h5, h7, h2, h10⟩
     simp [afterApp, getProgress_setProgress]
 
-/-- the window invariant `count ≤ size` of every follower survives `maybeSendAppend`: a leader never
-has more than `MaxInflightMsgs` entry-bearing appends outstanding -/
+/-- the window invariant of every follower (`Inflights.WF`: `count ≤ size`, and at most `maxBytes`
+bytes beyond the one message that crossed the limit) survives `maybeSendAppend`: a leader never has
+more than `MaxInflightMsgs` entry-bearing appends outstanding, nor more than `MaxInflightBytes`
+beyond the one message that crosses the limit -/
 theorem maybeSendAppend_preserves_window (to : Id) (b : Bool) (r r' : Raft) (res : Bool)
     (h : (maybeSendAppend to b).run r = .ok (res, r'))
     (hinv : ∀ id pr, r.trk.getProgress id = some pr → pr.inflights.WF) :
@@ -664,7 +666,7 @@ namespace Raft
 /-! ## 6. the limits survive the loops around `maybeSendAppend` (`sendAppend`, the `for
 maybeSendAppend {}` loop, `bcastAppend`): configuration, log, term and uncommitted size are
 untouched, messages are only appended, every appended `MsgApp` respects `MaxSizePerMsg` (or carries
-one entry), and every inflight window keeps `count ≤ size` -/
+one entry), and every inflight window stays well-formed (`Inflights.WF`) -/
 
 theorem maybeSendAppend_appStep (to : Id) (b : Bool) (r r' : Raft) (res : Bool)
     (h : (maybeSendAppend to b).run r = .ok (res, r')) : AppStep r r' := by
